@@ -1032,3 +1032,27 @@ def one_shot_reuse(fdef, generator_functions=()):
             if done:
                 break
     return out
+
+
+def call_kwargs(fdef, call):
+    """keyword arguments of a call as {name: value expression}, looking through `**local` where the local is bound once to a dictionary display /
+    dict(...) call with literal keys (a call whose options were collected in a dict first)"""
+    out = {}
+    for k in call.keywords:
+        if k.arg is not None:
+            out[k.arg] = k.value
+            continue
+        v = k.value
+        if isinstance(v, ast.Name):
+            dd = [a.value for a in walk_no_nested(fdef) if isinstance(a, ast.Assign) and len(a.targets) == 1 and src(a.targets[0]) == v.id]
+            if len(dd) == 1:
+                v = dd[0]
+        if isinstance(v, ast.Dict):
+            for kk, vv in zip(v.keys, v.values):
+                if isinstance(kk, ast.Constant) and isinstance(kk.value, str):
+                    out[kk.value] = vv
+        elif isinstance(v, ast.Call) and dotted(v.func) == 'dict' and not v.args:
+            for kk in v.keywords:
+                if kk.arg is not None:
+                    out[kk.arg] = kk.value
+    return out
